@@ -14,6 +14,7 @@ enum fm_un_op {
   U_SQRT, U_SQRT_ABACUS, U_SQRT_STD,
   U_SQRT_APROX, U_ATAN_INDEX_APROX, U_ATAN_APROX,
   U_SIN_ANGLE_FX, U_COS_ANGLE_FX, U_TAN_ANGLE_FX,   // *_angle(fixed_t)
+  U_ADDEQ_SELF, U_SUBEQ_SELF, U_MULEQ_SELF, U_DIVEQ_SELF,   // x op= x with the SAME object on both sides (aliasing)
   U_COUNT
 };
 // binary fixed x fixed -> fixed (or bool)
@@ -80,6 +81,18 @@ struct fm_shape_info {
   X(void, fm_shape_get,     (int idx, struct fm_shape_info* out)) \
   X(i64,  fm_shape_call,    (int idx, i64 a, i64 b)) \
   X(void, fm_shape_batch,   (int idx, const i64* a, const i64* b, size_t n, i64* out)) \
+  X(i64,  fm_un_constarg,   (int op, int ki)) \
+  X(i64,  fm_bin_constarg,  (int op, int ki, int kj)) \
+  X(i64,  fm_constarg_value,(int binary, int ki)) \
+  X(int,  fm_constarg_count,(int binary)) \
+  X(u64,  fm_un_cmpmask,    (int op, i64 a)) \
+  X(u64,  fm_bin_cmpmask,   (int op, i64 a, i64 b)) \
+  X(i64,  fm_cmpmask_const, (int i)) \
+  X(int,  fm_cmpmask_count, (void)) \
+  X(void, fm_seq_conv,      (int type, i64 a, i64 b, u64* r1, u64* r2)) \
+  X(i64,  fm_seq_compound,  (int op1, int op2, i64 a, i64 b, i64 c)) \
+  X(i64,  fm_early,         (int idx, int now)) \
+  X(int,  fm_early_count,   (void)) \
   X(int,  fm_probe_sqrt_algo, (void)) \
   X(int,  fm_sqrt_constexpr_available, (void)) \
   X(const char*, fm_config, (void)) \
